@@ -19,7 +19,7 @@ RULE = (
 )
 REQUIRED = ["canon_faithful_checked", "invariance_variants_checked", "automorphism_count_checked",
             "orbits_checked", "refine_postcondition_evals", "refine_multi_round", "crn_automorphism_checked",
-            "separation_pairs_checked", "nontrivial_automorphism_groups", "views/bipartite", "views/species"]
+            "separation_pairs_checked", "nontrivial_automorphism_groups", "views/bipartite", "views/species", "view_options_checked"]
 ASSUMPTIONS = [
     "canonical graphs compared after projection on the selected node/edge attribute keys (unselected attributes such as labels, via sets legitimately differ)",
     "CRNAutomorphism compared on node keys only (its documented contract)",
@@ -122,6 +122,15 @@ def check_case(ctx, net, cfg, tag, seen, perms=None):
     H, cz, s = canon_of(net, cfg)
     G = cz.G
     ctx.count("views/" + ("bipartite" if inc_rule else "species"))
+    # the view the canonicaliser works on must be the documented view for these options
+    from synkit.CRN.Hypergraph.conversion import hypergraph_to_bipartite, hypergraph_to_species_graph
+    want_view = (hypergraph_to_bipartite(H, integer_ids=False, include_stoich=inc_st, species_prefix=None, reaction_prefix=None)
+                 if inc_rule else hypergraph_to_species_graph(H))
+    ctx.count("view_options_checked")
+    if set(G.nodes) != set(want_view.nodes) or set(G.edges) != set(want_view.edges) or \
+            any(G.nodes[n] != want_view.nodes[n] for n in G.nodes) or any(G.edges[e] != want_view.edges[e] for e in G.edges):
+        ctx.violation("view-ignores-options", wit, f"the view built for include_rule={inc_rule}, include_stoich={inc_st} is not the documented view (e.g. carries stoichiometry although it was switched off)")
+        return
     Gc = s["canon_graph"]
     perm = s["canonical_perm"]
     N = G.number_of_nodes()
